@@ -424,13 +424,14 @@ class ShapeDomain(Domain):
                     if isinstance(n, ast.Assign) and len(n.targets) == 1 and isinstance(n.targets[0], ast.Name) \
                             and n.targets[0].id == recv.id and isinstance(n.value, ast.Call):
                         ctor = n.value
-            if ctor is not None and ctor.args and isinstance(ctor.args[0], ast.Name):
+            if ctor is not None and ctor.args and (isinstance(ctor.args[0], ast.Name) or (
+                    isinstance(ctor.args[0], ast.Attribute) and isinstance(ctor.args[0].value, ast.Name) and ctor.args[0].value.id != "self")):
                 t = eng.resolver.resolve(ctor, fr.func, fr.concrete)
                 if t.kind == "ctor" and t.cls is not None and self.handler_base is not None \
                         and self.prog.is_subclass(t.cls, self.handler_base) and t.cls not in self.relaxed:
                     sec = self.prog.resolve_method(t.cls, "isrequestsecure")
                     if sec is not None and sec.cls is self.handler_base:
-                        out[ctor.args[0].id] = V(("sel",))
+                        out[dotted(ctor.args[0])] = V(("sel",))
         elif isinstance(test, ast.Call) and not _depth:
             # a helper that applies the filter to one of its parameters: self._isrequestable(N), selectorissecure(N)
             t = eng.resolver.resolve(test, fr.func, fr.concrete)
@@ -501,6 +502,10 @@ class ShapeDomain(Domain):
                     and self.prog.is_subclass(target.cls, self.handler_base) and args \
                     and not _only_filter_probe(func, call):
                 info = ("ctor", "handler-construction", args[0], target.cls.name)
+            if target.kind == "repo" and target.funcs and target.funcs[0] is not None and target.funcs[0].name == "getHandler" \
+                    and target.funcs[0].cls is None and args and ".protocols" not in func.module.name:
+                # the gate re-applies the filter, but not the leading slash that root + selector relies on
+                info = ("gate", "handler-selection", args[0], "getHandler")
         if info is None:
             return
         key = (func.qualname, norm(call))
